@@ -29,6 +29,24 @@ add("C18", "exploration",
     "Single-threaded interleavings (the harness owns the schedule between operations); true data races inside one operation are out of reach.",
     "stateful property-based testing against a reference model (flushed-prefix log)", "§4 C18")
 
+STORE_NOTE = "Oracle = in-memory reference event store written from the property statements; generators stay inside what callers produce (partition id = key hash % partitions). Histories are single-client (plus batches of concurrently submitted appends); see C15/C16/C20 for real concurrency."
+add("C01", "exploration",
+    "Model-based stateful testing of the embedded database: generated configurations and histories (appends incl. failing multi-event ones, batches, rollovers, reopens). Immediately after every acknowledgement the fsync ledger (hook H1) must cover the transaction and event lookup / transaction lookup / stream scan / partition scan must return every event field-for-field; the same for every acknowledged transaction after each reopen and at the end.",
+    STORE_NOTE + " The fsync ledger trusts seglog::Writer to report what it fsynced.",
+    "stateful property-based testing against a reference model + fsync-ledger invariant (hook)", "§4 C01")
+add("C02", "exploration",
+    "Same interpreter: every append's accept/reject decision, assigned partition sequences and stream versions, and get_stream_version/get_partition_sequence are compared with the model across unsynced (batch), open-index, sealed-index and post-reopen states.",
+    STORE_NOTE + " Which error is reported is not modelled.",
+    "stateful property-based testing against a reference model", "§4 C02")
+add("C03", "exploration",
+    "Same interpreter with scan-heavy histories: forward scans must equal the model exactly; reverse scans must cover every event at or before the start with transaction-suffix groups in strictly decreasing order; all start positions (0, existing, end, beyond, u64::MAX), batch sizes 1-60, open/sealed segments, after reopen; full audit of every stream and partition in both directions.",
+    STORE_NOTE + " Inside a reverse group, events of the same transaction above the start position are tolerated (groups are transaction suffixes).",
+    "stateful property-based testing against a reference model (exactness + order + grouping oracles)", "§4 C03")
+add("C19", "exploration",
+    "Same interpreter plus boundary appends whose estimated size lands on/around the free space of the live segment with compressible and incompressible payloads, compression on/off: a transaction that fits an empty segment must never be rejected for lack of space; a rejected one is retried three times.",
+    STORE_NOTE + " 'Fits an empty segment' is judged by the uncompressed estimate the writer itself uses.",
+    "stateful property-based testing with boundary-targeted generation", "§4 C19")
+
 NOT_BUILT = {}
 ALL = ["C%02d" % i for i in range(1, 27)]
 for i in ALL:
